@@ -132,8 +132,6 @@ theorem sinvl_result {s s' : St} {t : Tid} {r : GRet} {L : List Nat}
     refine ⟨?_, hpc, by simp [upd], fun t2 h2 => by simp [upd, h2], rfl, rfl, rfl, rfl, rfl, rfl⟩
     sinv_close
   next => simp at hs
-  next => simp at hs
-  all_goals simp at hs
 
 theorem sinvl_step {s s' : St} {t : Tid} {ev : Ev} {L : List Nat}
     (h : SInvL s L) (hs : step s t = some (s', ev)) : ∃ L', SInvL s' L' ∧ StepEff s t s' L L' := by
